@@ -343,3 +343,15 @@ def module_resolver(program, module):
                 return v
         raise KeyError(name)
     return resolve
+
+
+def fact_call(fact):
+    """The call whose outcome this fact is about: the tested expression itself
+    (`if not self.put(...)`) or the call a tested flag was bound to just before
+    (`ok = self.put(...); if not ok`).  Returns (call, polarity) or (None, None)."""
+    e, pol = fact_atom(fact)
+    if isinstance(e, ast.Call):
+        return e, pol
+    if isinstance(e, ast.Name) and isinstance(getattr(fact, "info", None), ast.Call):
+        return fact.info, pol
+    return None, None
